@@ -762,6 +762,34 @@ func (fr *frame) slice(instr *ssa.Slice) value {
 	m := fr.m
 	x := m.resolveSlice(m.resolvePtr(fr.get(instr.X)))
 	var lo, hi, max int = 0, -1, -1
+	// A symbolic bound is concretised by forking over its feasible values. Split first on "bound
+	// exceeds the capacity" (one representative out-of-range path: Go panics for every such value)
+	// so that the enumeration is limited to 0..cap instead of the whole range of a wire length field.
+	limit := -1
+	switch xx := x.(type) {
+	case Str:
+		limit = xx.Len()
+	case []value:
+		limit = cap(xx)
+	case *value:
+		if xx != nil {
+			if a, ok := (*xx).(array); ok {
+				limit = len(a)
+			}
+		}
+	}
+	if limit >= 0 {
+		for _, op := range []ssa.Value{instr.Low, instr.High, instr.Max} {
+			if op == nil {
+				continue
+			}
+			if t, ok := fr.get(op).(*Term); ok && !t.IsConst() && m.spec == 0 {
+				if !m.branch(m.tt.Cmp("bvule", t, m.tt.Const(t.W, uint64(limit)))) {
+					panic(goPanic{m.mkRuntimeError(fmt.Sprintf("slice bounds out of range [sym] with capacity %d", limit))})
+				}
+			}
+		}
+	}
 	if instr.Low != nil {
 		lo = m.concInt(fr.get(instr.Low))
 	}
